@@ -13,6 +13,7 @@ type Job struct {
 	Alloc  bool   // ghost allocation counter clauses (@alloc) active
 	Rel    bool   // relational driver: independence from the scratch parameters
 	Only   string // restrict to one obligation kind without invariant inference (e.g. "frame")
+	SimAs  string // prove a relative (init=none) spec-run contract under another run: "travarr" | "travobj" (no nesting limit)
 }
 
 func relJobs(keys ...string) []Job {
@@ -38,6 +39,17 @@ func framesOnly(keys ...string) []Job {
 	for i := range out {
 		out[i].Only = "frame"
 		out[i].Driver = "frames"
+	}
+	return out
+}
+
+// simAs: the relative contracts of helper functions called from the traversal machines are proved
+// under the traversal runs (same transducer, other entry point, no nesting limit).
+func simAs(variant string, keys ...string) []Job {
+	out := simJobs(keys...)
+	for i := range out {
+		out[i].SimAs = variant
+		out[i].Driver = "sim:" + variant
 	}
 	return out
 }
@@ -106,8 +118,10 @@ func concat(ls ...[]string) []string {
 	return out
 }
 
+var fpFns = []string{"fp.ParseJSONFloatPrefix", "fp.readFloat", "fp.(*decimal).set", "fp.atof64exact", "fp.eiselLemire64"}
+
 func allContractFns() []string {
-	return concat(machineFns, helperFns, wrapperFns, tokenFns, readerFns, decodeFns)
+	return concat(machineFns, helperFns, wrapperFns, tokenFns, readerFns, decodeFns, fpFns)
 }
 
 var safetyKinds = map[string]bool{"bounds": true, "slice": true, "nil-deref": true, "nil-map": true, "div0": true, "shift-neg": true,
@@ -124,7 +138,7 @@ func properties() map[string]*Property {
 			"handlers return arbitrary (p, err): p is an unconstrained 64-bit integer at every call",
 			"pointer targets of Decode functions are non-nil (a nil target is a caller error, like json.Unmarshal(nil))",
 			"termination of called functions outside the module (fmt, unicode/utf8, unicode/utf16) and the Go runtime's own stack growth are not analysed",
-			"internal/fp is under an assumed safety contract (ParseJSONFloatPrefix) until its functions are under contract",
+			"internal/fp: ParseJSONFloatPrefix, readFloat, (*decimal).set, atof64exact and eiselLemire64 are proved here; (*decimal).floatBits and the decimal shifting code below it (Shift, leftShift, rightShift, trim, RoundedInteger) enter with an assumed safety contract, justified by C04's lock-step equivalence with Go 1.23.5 strconv (whose safety is assumed)",
 		},
 		Subset: "memory safety (index, slice, nil, division), termination (measure per cut point) and `err == nil ==> 0 <= p <= len(data)` for every function under contract; handler offsets that would move the position outside the input are an error",
 	}
@@ -158,11 +172,12 @@ func properties() map[string]*Property {
 	}
 	ps["C13"] = &Property{ID: "C13", Level: "proof",
 		Jobs: hostile("NextToken", "NextTokenType", "countWhitespace", "readNull", "readBool", "ReadNull", "ReadBool",
-			"ReadUint64", "ReadUint32", "ReadInt64", "ReadInt32", "ReadInt", "ReadUint", "ReadStringBytes", "ReadString"),
+			"ReadUint64", "ReadUint32", "ReadInt64", "ReadInt32", "ReadInt", "ReadUint", "ReadStringBytes", "ReadString",
+			"ReadFloat64", "fp.ParseJSONFloatPrefix", "fp.readFloat"),
 		Labels: []string{"C13"},
 		Assume: []string{
 			"token classes: tokclass(b) in rjv is the RFC 8259 token table numbered like the TokenType constants; the package tables tokenTypes and whitespace are read from their composite literals on every run and compared with it inside the proofs of NextToken/NextTokenType/countWhitespace (every one of the 256 entries matters to some obligation)",
-			"exclusivity: every reader's contract carries err == nil ==> tokclass(first non-whitespace byte) == its class; the classes are pairwise different constants. ReadFloat64's exclusivity rests on the assumed contract of internal/fp (its first byte is '-' or a digit) and is not part of this check",
+			"exclusivity: every reader's contract carries err == nil ==> tokclass(first non-whitespace byte) == its class; the classes are pairwise different constants (ReadFloat64 included: readFloat / ParseJSONFloatPrefix succeed only on input starting with '-' or a digit)",
 		},
 	}
 	ps["C16"] = &Property{ID: "C16", Level: "proof",
@@ -196,7 +211,8 @@ func properties() map[string]*Property {
 		return out
 	}
 	ps["C07"] = &Property{ID: "C07", Level: "proof",
-		Jobs:   append(wb("handleArrayValues", "handleObjectValues", "HandleArrayValues", "HandleObjectValues"), simJobs("skipFloatDec", "skipFloatExp")...),
+		Jobs: append(append(wb("handleArrayValues", "handleObjectValues", "HandleArrayValues", "HandleObjectValues"),
+			simAs("travarr", "skipFloatDec", "skipFloatExp")...), simAs("travobj", "skipFloatDec", "skipFloatExp")...),
 		Labels: []string{"C07"},
 		Extra:  []string{"spec-lemmas"},
 		Assume: append([]string{
@@ -219,17 +235,18 @@ func properties() map[string]*Property {
 	numFns := []string{"ReadUint64", "ReadUint32", "ReadInt64", "ReadInt32", "ReadInt", "ReadUint", "ReadFloat64",
 		"DecodeBool", "DecodeFloat64", "DecodeInt64", "DecodeInt32", "DecodeInt", "DecodeUint64", "DecodeUint32", "DecodeUint"}
 	ps["C19"] = &Property{ID: "C19", Level: "proof",
-		Jobs:   append(hostile(concat(pureFns, numFns)...), hostile("growBytesSliceCapacity", "unescapeUnicodeChar")...),
+		Jobs:   append(hostile(concat(pureFns, numFns, fpFns)...), hostile("growBytesSliceCapacity", "unescapeUnicodeChar")...),
 		Kinds:  map[string]bool{"ensures": true, "inv-init": true, "inv-preserved": true, "requires@call": true},
 		Labels: []string{"C19"},
+		Extra:  []string{"fp-noalloc-scan"},
 		Assume: []string{
-			"ghost allocation counter: incremented at every make / append growth / []byte<->string conversion / interface boxing / fmt.Errorf / escaping new in the functions under contract; which local variables the compiler keeps on the stack is not modelled (go/ssa's own escape flag is used), and the allocator itself is not modelled",
-			"internal/fp.ParseJSONFloatPrefix performs no heap allocation (assumed contract; its decimal scratch value is a local array)",
+			"ghost allocation counter: incremented at every make / append growth / []byte<->string conversion / interface boxing / fmt.Errorf / escaping new in the functions under contract. A local whose address is taken counts as heap-allocated unless a conservative escape analysis (cmd/rjv/escape.go, mirroring gc's rule) shows that neither it nor a pointer derived from it is stored, returned, boxed, captured or passed to a callee that does so; gc's actual decision and the allocator itself are not modelled (the replay measures testing.AllocsPerRun on the real code)",
+			"internal/fp: ParseJSONFloatPrefix, readFloat, (*decimal).set, atof64exact, eiselLemire64 are proved not to allocate; (*decimal).floatBits and the shifting code below it contain no allocating instruction (SSA scan of the function and its callees: no make / append / conversion / boxing / closure / escaping local; one obligation per function)",
 			"NOT covered: SkipValue, SkipValueFast, Valid, HandleArrayValues, HandleObjectValues with a warmed Buffer (their only allocation sites are the stack-growth sites guarded by `top+1 >= len(stack)`, see C20; that a buffer warmed on a document at least as deep makes the guard false needs a depth bound that is not built), and ReadStringBytes / UnescapeStringContent with spare capacity (their contracts state it for growBytesSliceCapacity and unescapeUnicodeChar only)",
 		},
 		Subset: "successful calls of the token, null, bool, integer and float readers and of the numeric/boolean Decode functions (including Decode on a null input) request zero heap bytes: ensures `err == nil ==> ghost_alloc == old(ghost_alloc)` for each, modularly through their callees; growBytesSliceCapacity and unescapeUnicodeChar request nothing when capacity suffices",
 	}
-	c20fns := concat(pureFns, numFns, []string{"growBytesSliceCapacity", "unescapeUnicodeChar", "errUnexpectedByteInString",
+	c20fns := concat(pureFns, numFns, fpFns, []string{"growBytesSliceCapacity", "unescapeUnicodeChar", "errUnexpectedByteInString",
 		"skipValue", "skipValueFast", "handleArrayValues", "handleObjectValues", "SkipValue", "SkipValueFast", "HandleArrayValues", "HandleObjectValues",
 		"appendRemainderOfString", "ReadStringBytes", "rjson.(*ValueReader).ReadObject", "rjson.(*ValueReader).ReadArray"})
 	ps["C20"] = &Property{ID: "C20", Level: "proof",
@@ -244,8 +261,10 @@ func properties() map[string]*Property {
 		Subset: "per-call resource contracts on the ghost allocation counter: in the four stack machines every allocation event (the temporary make and the append growth of the stack) requests at most 16*p+1024 bytes where p is the position reached (per event; that the events of one call add up to a linear total is the geometric-growth argument M-amort, not machine-checked), scalar readers and Decode functions a constant, string functions a bound in the destination size and the bytes consumed. Three sites violate their bound on the pinned tree and are recorded as known findings F2, F3, F4 (replayed on the real code: /verif/findings/c20_findings_test.go)",
 	}
 	ps["C04"] = &Property{ID: "C04", Level: "proof",
-		Jobs:  nil,
-		Extra: []string{"fp-tables", "fp-equiv", "fp-equiv-loops"},
+		Jobs:   simJobs("ReadFloat64", "fp.ParseJSONFloatPrefix", "fp.readFloat", "fp.(*decimal).set", "countWhitespace"),
+		Labels: []string{"C04"},
+		Extra:  []string{"fp-tables", "fp-equiv", "fp-equiv-loops", "spec-lemmas"},
+		Subset: "(a) tables: every row equals its mathematical definition and the pinned reference; (b) kernels: eiselLemire64 and atof64exact equal strconv's for all arguments; (c) decimal slow path: floatBits, Shift, leftShift, rightShift, prefixIsLessThan, trim, shouldRoundUp, RoundedInteger are lock-step equivalent to strconv's (same results and same memory for equal arguments, loop by loop); (d) grammar and offset: ReadFloat64 / ParseJSONFloatPrefix / readFloat succeed (or report only a range error) exactly when the first token is an RFC 8259 number and return the offset just after the literal (simulation against the master transducer), and (*decimal).set accepts every literal readFloat accepted. NOT covered: that readFloat's (mantissa, exponent, truncated) and set's digit buffer denote the literal's decimal value, and that ParseJSONFloatPrefix combines the kernels as strconv.atof64 does (its structure is the same by inspection only)",
 		Assume: []string{
 			"A-strconv: Go 1.23.5 strconv.ParseFloat is correctly rounded (the property names it as the oracle); the reference is the verbatim copy of eisel_lemire.go / decimal.go / atof.go under /verif/ref/strconv (SHA256SUMS checked against GOROOT when present)",
 		},
